@@ -16,7 +16,10 @@ RULE = ('clouds of N in 1..300 points, 1..6 coordinate dims + 0..3 feature chann
         'permutation of the cloud (equivariance); k over 0..N+1, radii on / next to realised distances, voxel sizes integer / dyadic / negative; '
         'cameras: dyadic pinhole and general 3x3 intrinsics, Hurwitz-unit and non-unit dyadic quaternions, plus generic float cameras; '
         'a case = (function, cloud, parameters); non-trivial = N >= 2; distinct by value; directed block first (every branch of the model, '
-        'every recorded finding witness), then random; tolerance 2^-51 relative for results of one division, equality otherwise')
+        'every recorded finding witness), then random; tolerance 2^-51 relative for results of one division, equality otherwise; '
+        'then, by the exact oracle alone: size regimes (N at / next to powers of two up to 300, half above 256, thresholds nbr / radius exactly attained), '
+        'call forms (float32 / float64 / integer tensors, column-major / strided / offset views, integer pixel grids and depth images) and the '
+        'non-mutation of every tensor argument')
 
 ORDS = {'L1': 1, 'L2': 2, 'Linf': float('inf')}
 # keys of the three defects found by this check and since repaired in /repo (known_findings.txt: `fixed:` lines,
@@ -179,14 +182,63 @@ def call(fn):
         return None, '%s: %s' % (type(e).__name__, str(e)[:160])
 
 
-def tens(torch, rows, D=None):
+# call forms: every tensor handed to the implementation is built by `mk` in the dtype / memory layout named by the case
+# (keys 'dtype', 'layout'; cameras: 'dtypes' per argument) and registered, so that after the call the tensor AND the buffer
+# it is a view of can be compared bit for bit with their snapshots (no API function here may modify its arguments)
+LIVE = []
+EPS = {'float64': TOL, 'float32': Fraction(1, 2 ** 22)}
+LAYOUTS = [None, 'T', 'strided', 'offset']
+
+
+def eps(c):
+    d = (c or {}).get('dtype', 'float64')
+    return EPS.get(d, TOL)
+
+
+def mk(torch, data, dtype='float64', layout=None):
+    """layout: None contiguous | 'T' column-major storage | 'strided' every other row and an inner block of columns of a larger
+    buffer filled with other numbers | 'offset' a contiguous slice at a storage offset"""
+    dt = getattr(torch, dtype)
+    t = torch.tensor(data, dtype=dt)
+    base = t
+    if layout and t.numel() > 0 and t.dim() >= 1:
+        if layout == 'T' and t.dim() >= 2:
+            t = t.mT.contiguous().mT
+            base = t
+        elif layout == 'strided' and t.dim() >= 2:
+            r, w = t.shape[-2], t.shape[-1]
+            base = torch.full(tuple(t.shape[:-2]) + (2 * r + 1, w + 3), 77, dtype=dt)
+            base[..., 1::2, 2:2 + w] = t
+            t = base[..., 1::2, 2:2 + w]
+        elif layout == 'strided':
+            base = torch.full((2 * t.shape[0] + 1,), 77, dtype=dt)
+            base[1::2] = t
+            t = base[1::2]
+        elif layout == 'offset':
+            base = torch.full((t.numel() + 5,), 77, dtype=dt)
+            base[5:] = t.reshape(-1)
+            t = base[5:].reshape(t.shape)
+    LIVE.append((base, base.clone()))
+    return t
+
+
+def mutated(torch):
+    """True when a tensor built by mk since the last call (or the buffer behind it) no longer equals its snapshot"""
+    bad = any(not torch.equal(b, s) for b, s in LIVE)
+    del LIVE[:]
+    return bad
+
+
+def tens(torch, rows, D=None, c=None):
+    c = c or {}
+    dtype = c.get('dtype', 'float64')
     if not rows:
-        return torch.zeros((0, D or 1), dtype=torch.float64)
-    return torch.tensor(rows, dtype=torch.float64)
+        return torch.zeros((0, D or 1), dtype=getattr(torch, dtype))
+    return mk(torch, rows, dtype, c.get('layout'))
 
 
 def impl_knn_filter(pp, torch, c):
-    t = tens(torch, c['pts'])
+    t = tens(torch, c['pts'], c=c)
     r, err = call(lambda: pp.knn_filter(t, k=c['k'], pdim=c['pd'], radius=c['radius'], ord=ORDS[c['ord']]))
     return (rows_of(r) if err is None else None), err
 
@@ -204,8 +256,8 @@ def check_knn_filter(pp, torch, c):
     out, err = impl_knn_filter(pp, torch, c)
     if err is not None:
         return 'raises %s; expected %d rows, first %s' % (err, len(exp), [str(x) for x in exp[0]] if exp else [])
-    if not rows_close(out, exp):
-        bad = [i for i in range(min(len(out), len(exp))) if not rows_close([out[i]], [exp[i]])]
+    if not rows_close(out, exp, eps(c)):
+        bad = [i for i in range(min(len(out), len(exp))) if not rows_close([out[i]], [exp[i]], eps(c))]
         return 'returns %d rows, expected %d; first differing row %s: got %s expected %s' % (
             len(out), len(exp), bad[:1], out[bad[0]] if bad else None, [float(x) for x in exp[bad[0]]] if bad else None)
     return None
@@ -225,7 +277,7 @@ def knnf_class(c):
 
 
 def impl_voxel_random(pp, torch, c):
-    t = tens(torch, c['pts'])
+    t = tens(torch, c['pts'], c=c)
     torch.manual_seed(c.get('seed', 0))
     r, err = call(lambda: pp.voxel_filter(t, list(c['voxel']), random=True))
     if err is not None:
@@ -315,6 +367,20 @@ class Col:
         return out
 
 
+def guarded(f):
+    """non-mutation clause on the tie path: the tensors built for the call are compared with their snapshots afterwards"""
+    def w(col, pp, torch, *a, **kw):
+        del LIVE[:]
+        n = len(col.meta)
+        r = f(col, pp, torch, *a, **kw)
+        if mutated(torch) and len(col.meta) > n:
+            c = {k: v for k, v in col.meta[-1].items() if k not in ('impl', 'kind')}
+            col.ctx.violation('mutation:%s' % c.get('fn'), '%s: %s' % (c.get('fn'), MUT), c)
+        return r
+    return w
+
+
+@guarded
 def add_knn(col, pp, torch, ref, nbr, k, o, batch=1):
     """pp.knn on (batch copies of) ref / nbr; the topk contract is checked row by row in Coq"""
     tr, tn = tens(torch, ref), tens(torch, nbr)
@@ -340,6 +406,7 @@ def add_knn(col, pp, torch, ref, nbr, k, o, batch=1):
     return res
 
 
+@guarded
 def add_nbr(col, pp, torch, pts, nbr, radius, pd, o, usepd=True):
     t = tens(torch, pts)
     r, err = call(lambda: pp.nbr_filter(t, nbr=nbr, radius=radius, pdim=(pd if usepd else None), ord=ORDS[o], return_mask=True))
@@ -355,6 +422,7 @@ def add_nbr(col, pp, torch, pts, nbr, radius, pd, o, usepd=True):
     return out
 
 
+@guarded
 def add_vox(col, pp, torch, pts, voxel):
     t = tens(torch, pts)
     r, err = call(lambda: pp.voxel_filter(t, list(voxel)))
@@ -368,6 +436,7 @@ def add_vox(col, pp, torch, pts, voxel):
     return out
 
 
+@guarded
 def add_voxr(col, pp, torch, pts, voxel, seed):
     c = dict(fn='voxel_filter_random', pts=pts, voxel=list(voxel), seed=seed)
     shape, out, err = impl_voxel_random(pp, torch, c)
@@ -382,6 +451,7 @@ def add_voxr(col, pp, torch, pts, voxel, seed):
     return shape, out
 
 
+@guarded
 def add_knnf(col, pp, torch, pts, k, pd, o, radius, batch=1):
     c = dict(fn='knn_filter', pts=pts, k=k, pd=pd, ord=o, radius=radius)
     if batch > 1 and radius is None:
@@ -413,6 +483,7 @@ def add_knnf(col, pp, torch, pts, k, pd, o, radius, batch=1):
     return out
 
 
+@guarded
 def add_rnd(col, pp, torch, pts, num, seed, batch=1):
     t = tens(torch, pts)
     N = len(pts)
@@ -437,12 +508,13 @@ def add_rnd(col, pp, torch, pts, num, seed, batch=1):
     return out
 
 
+@guarded
 def add_cam(col, pp, torch, op, K, T, a, b, tol, atol, note=''):
     """op: 0 cart2homo | 1 homo2cart | 2 point2pixel | 3 pixel2point | 4/5/6 reprojerr none/sum/norm"""
-    ta = torch.tensor(a, dtype=torch.float64)
-    tK = torch.tensor(K, dtype=torch.float64) if K else None
-    tT = pp.SE3(torch.tensor(T, dtype=torch.float64)) if T else None
-    tb = torch.tensor(b, dtype=torch.float64) if b else None
+    ta = mk(torch, a)
+    tK = mk(torch, K) if K else None
+    tT = pp.SE3(mk(torch, T)) if T else None
+    tb = mk(torch, b) if b else None
     if op == 0:
         r, err = call(lambda: pp.cart2homo(ta))
     elif op == 1:
@@ -662,7 +734,7 @@ def directed(ctx, col, pp, torch):
 def check_knn(pp, torch, c):
     o, k = c['ord'], c['k']
     R, Nb = frows(c['ref']), frows(c['nbr'])
-    r, err = call(lambda: pp.knn(tens(torch, c['ref']), tens(torch, c['nbr']), k=k, ord=ORDS[o]))
+    r, err = call(lambda: pp.knn(tens(torch, c['ref'], c=c), tens(torch, c['nbr'], c=c), k=k, ord=ORDS[o]))
     if k > len(Nb):
         return None if err else 'k > number of neighbours but no error'
     if err:
@@ -677,14 +749,14 @@ def check_knn(pp, torch, c):
         if got != want:
             return 'row %d: distances at the returned indices %s are not the %d smallest in ascending order' % (i, idx[i], k)
         for v, m in zip(vals[i], got):
-            ok = (F(v) == m) if o != 'L2' else (v >= 0 and close(F(v) ** 2, m, Fraction(1, 2 ** 50)) or (m == 0 and v == 0))
+            ok = (F(v) == m) if o != 'L2' else (v >= 0 and close(F(v) ** 2, m, 2 * eps(c)) or (m == 0 and v == 0))
             if not ok:
                 return 'row %d: value %r is not the distance to neighbour' % (i, v)
     return None
 
 
 def check_nbr(pp, torch, c):
-    r, err = call(lambda: pp.nbr_filter(tens(torch, c['pts']), nbr=c['nbr'], radius=c['radius'], pdim=c['pd'], ord=ORDS[c['ord']], return_mask=True))
+    r, err = call(lambda: pp.nbr_filter(tens(torch, c['pts'], c=c), nbr=c['nbr'], radius=c['radius'], pdim=c['pd'], ord=ORDS[c['ord']], return_mask=True))
     if err:
         return 'raises ' + err
     if F(c['radius']) < 0:
@@ -700,7 +772,7 @@ def check_nbr(pp, torch, c):
 
 
 def check_voxel(pp, torch, c):
-    r, err = call(lambda: pp.voxel_filter(tens(torch, c['pts']), list(c['voxel'])))
+    r, err = call(lambda: pp.voxel_filter(tens(torch, c['pts'], c=c), list(c['voxel'])))
     if any(v == 0 for v in c['voxel']):
         return None if err else 'zero voxel size accepted'
     if err:
@@ -708,14 +780,14 @@ def check_voxel(pp, torch, c):
     groups = o_voxel(c['pts'], c['voxel'])
     want = sorted([sum(p[ch] for p in mem) / len(mem) for ch in range(len(mem[0]))] for mem in groups.values())
     got = sorted([F(v) for v in row] for row in rows_of(r))
-    if not rows_close(got, want, Fraction(1, 2 ** 50)):
+    if not rows_close(got, want, 2 * eps(c)):
         return '%d rows returned for %d occupied voxels, or a row is not the centroid of a voxel' % (len(got), len(want))
     return None
 
 
 def check_random(pp, torch, c):
     torch.manual_seed(c.get('seed', 0))
-    r, err = call(lambda: pp.random_filter(tens(torch, c['pts']), c['num']))
+    r, err = call(lambda: pp.random_filter(tens(torch, c['pts'], c=c), c['num']))
     if c['num'] > len(c['pts']):
         return None if err else 'num > N accepted'
     if err:
@@ -731,69 +803,120 @@ def check_random(pp, torch, c):
     return None
 
 
-def o_project(K, T, p, tiny=Fraction(1, 2 ** 1022)):
+TINY = {'float64': Fraction(1, 2 ** 1022), 'float32': Fraction(1, 2 ** 126)}
+
+
+def o_project(K, T, p, tiny=Fraction(1, 2 ** 1022), scale=False):
+    """pinhole projection of p in exact arithmetic (homo2cart's documented clamp of the depth to +-tiny included);
+    scale=True: also the magnitude (sum of |terms| / |depth|) against which a rounding error of the inputs' precision is measured"""
     p = [F(x) for x in p]
+    mag = max([abs(x) for x in p] + [Fraction(1)])
     if T:
         t, v, w = [F(x) for x in T[:3]], [F(x) for x in T[3:6]], F(T[6])
         cr = lambda a, b: [a[1] * b[2] - a[2] * b[1], a[2] * b[0] - a[0] * b[2], a[0] * b[1] - a[1] * b[0]]
         uv = [2 * x for x in cr(v, p)]
         vuv = cr(v, uv)
         p = [p[i] + w * uv[i] + vuv[i] + t[i] for i in range(3)]
+        q2 = sum(x * x for x in v) + w * w
+        mag = 3 * mag * (1 + 4 * q2) + max(abs(x) for x in t)
     h = [sum(F(K[i][j]) * p[j] for j in range(3)) for i in range(3)]
     den = (1 if h[2] >= 0 else -1) * max(abs(h[2]), tiny)
+    if scale:
+        kmax = max(abs(F(K[i][j])) for i in range(3) for j in range(3))
+        return [h[0] / den, h[1] / den], 3 * kmax * mag * (1 + max(abs(h[0] / den), abs(h[1] / den))) / abs(den)
     return [h[0] / den, h[1] / den]
 
 
 def check_cam(pp, torch, c):
+    """camera helpers against the pinhole model in exact arithmetic.  Optional call form: c['dtypes'] = dtype of the first tensor
+    argument 'a' (points / pixels / coordinates), of the second 'b' (pixels / depth) and of the camera 'K' (intrinsics and
+    extrinsics); c['layout'] = memory layout of a and b.  Integer pixel grids and integer depth images are ordinary inputs of
+    pixel2point / reprojerr; the values must be those of the pinhole model whatever the dtypes."""
     fn, K, T, a, b = c['fn'], c.get('K'), c.get('T'), c['pts'], c.get('b')
     gen = c.get('note') == 'generic'
+    dts = c.get('dtypes') or {}
+    da, db, dK = dts.get('a', 'float64'), dts.get('b', 'float64'), dts.get('K', 'float64')
+    lay = c.get('layout')
+    f32 = 'float32' in (da, db, dK)          # the coarsest floating-point precision taking part
     tol, atol = (Fraction(1, 2 ** 30), Fraction(1, 2 ** 20)) if gen else (Fraction(1, 2 ** 50), Fraction(1, 2 ** 40))
-    ta = torch.tensor(a, dtype=torch.float64)
-    tK = torch.tensor(K, dtype=torch.float64) if K else None
-    tT = pp.SE3(torch.tensor(T, dtype=torch.float64)) if T else None
-    near = lambda x, y: abs(F(x) - y) <= tol * abs(y) + atol
+    if f32:
+        tol, atol = Fraction(1, 2 ** 18), Fraction(1, 2 ** 18)
+    ta = mk(torch, a, da, lay)
+    tK = mk(torch, K, dK) if K else None
+    tT = pp.SE3(mk(torch, T, dK)) if T else None
+    near = lambda x, y, s=1: abs(F(x) - y) <= tol * abs(y) + atol * s
     if fn == 'cart2homo':
-        return None if rows_of(pp.cart2homo(ta)) == [r + [1.0] for r in a] else 'cart2homo does not append a one'
+        r, err = call(lambda: pp.cart2homo(ta))
+        if err:
+            return 'raises ' + err
+        return None if rows_of(r) == [[float(x) for x in r_] + [1.0] for r_ in a] else 'cart2homo(%s) = %s: does not append a one' % (a, rows_of(r))
     if fn == 'homo2cart':
-        tiny = Fraction(1, 2 ** 1022)
+        tiny = TINY[da]
         got = rows_of(pp.homo2cart(ta))
         for r, g in zip(a, got):
             w = F(r[-1])
             den = (1 if w >= 0 else -1) * max(abs(w), tiny)
-            if not all(close(x, F(y) / den, Fraction(1, 2 ** 50)) for x, y in zip(g, r[:-1])):
+            if not all(close(x, F(y) / den, 2 * EPS[da]) for x, y in zip(g, r[:-1])):
                 return 'homo2cart(%s) = %s' % (r, g)
         return None
     if fn == 'pixel2point':
-        r, err = call(lambda: pp.pixel2point(ta, torch.tensor(b, dtype=torch.float64).reshape(-1), tK))
+        tb = mk(torch, [z[0] for z in b], db, lay)
+        r, err = call(lambda: pp.pixel2point(ta, tb, tK))
         if K[0][0] == 0 or K[1][1] == 0:
             return None if err else 'zero focal length accepted'
         if err:
             return 'raises ' + err
-        for px, z, g in zip(a, b, rows_of(r)):
+        got = rows_of(r)
+        if len(got) != len(a) or any(len(g) != 3 for g in got):
+            return 'pixel2point returns shape %s for %d pixels' % (tuple(r.shape), len(a))
+        for px, z, g in zip(a, b, got):
             z = F(z[0])
             want = [(F(px[0]) - F(K[0][2])) * z / F(K[0][0]), (F(px[1]) - F(K[1][2])) * z / F(K[1][1]), z]
-            if not all(near(x, y) for x, y in zip(g, want)):
-                return 'pixel2point(%s, depth %s) = %s' % (px, float(z), g)
+            s = max(abs(F(px[0])) + abs(F(K[0][2])), abs(F(px[1])) + abs(F(K[1][2])), 1) * abs(z) / min(abs(F(K[0][0])), abs(F(K[1][1])), 1) if f32 else 1
+            if not all(near(x, y, s) for x, y in zip(g, want)):
+                return 'pixel2point(pixel %s [%s], depth %s [%s], intrinsics [%s]) = %s [%s], the pinhole model gives %s' % (
+                    px, da, float(z), db, dK, g, str(r.dtype).replace('torch.', ''), [float(x) for x in want])
         return None
-    proj = [o_project(K, T, p) for p in a]
+    if f32:
+        ps = [o_project(K, T, p, TINY['float32'], scale=True) for p in a]
+        proj, scl = [x[0] for x in ps], [x[1] for x in ps]
+        if any(s > 2 ** 40 for s in scl):
+            return None                  # projection through a (nearly) zero depth in single precision: outside the exact route
+    else:
+        proj, scl = [o_project(K, T, p) for p in a], [1] * len(a)
     if fn == 'point2pixel':
-        got = rows_of(pp.point2pixel(ta, tK, tT))
-        for p, g, wv in zip(a, got, proj):
-            if not all(near(x, y) for x, y in zip(g, wv)):
+        r, err = call(lambda: pp.point2pixel(ta, tK, tT))
+        if err:
+            return 'raises ' + err
+        got = rows_of(r)
+        for p, g, wv, s in zip(a, got, proj, scl):
+            if max(abs(y) for y in wv) > 10 ** 30:
+                continue                 # projection through a (nearly) zero depth: overflows, outside the exact route
+            if not all(math.isfinite(x) and near(x, y, s) for x, y in zip(g, wv)):
                 return 'point2pixel(%s) = %s, pinhole projection is %s' % (p, g, [float(x) for x in wv])
         return None
     red = fn.split('-')[1]
-    got = pp.reprojerr(ta, torch.tensor(b, dtype=torch.float64), tK, tT, reduction=red).reshape(len(a), -1).tolist()
-    for p, px, g, wv in zip(a, b, got, proj):
+    tb = mk(torch, b, db, lay)
+    r, err = call(lambda: pp.reprojerr(ta, tb, tK, tT, reduction=red))
+    if err:
+        return 'raises ' + err
+    got = r.reshape(len(a), -1).tolist()
+    for p, px, g, wv, s in zip(a, b, got, proj, scl):
+        if max(abs(y) for y in wv) > 10 ** 30:
+            continue
+        if not all(math.isfinite(x) for x in g):
+            return 'reprojerr(%s, pixel %s, reduction=%s) = %s' % (p, px, red, g)
         e = [wv[0] - F(px[0]), wv[1] - F(px[1])]
+        s = s + abs(F(px[0])) + abs(F(px[1])) if f32 else 1 + abs(wv[0]) + abs(wv[1])        # the error is a difference of numbers of this size
         if red == 'none':
-            ok = all(near(x, y) for x, y in zip(g, e))
+            ok = all(near(x, y, s) for x, y in zip(g, e))
         elif red == 'sum':
-            ok = near(g[0], abs(e[0]) + abs(e[1]))
+            ok = near(g[0], abs(e[0]) + abs(e[1]), s)
         else:
-            ok = abs(F(g[0]) ** 2 - (e[0] ** 2 + e[1] ** 2)) <= Fraction(1, 2 ** 20) * (1 + e[0] ** 2 + e[1] ** 2)
+            n2 = e[0] ** 2 + e[1] ** 2
+            ok = abs(F(g[0]) ** 2 - n2) <= (Fraction(1, 2 ** 20) * (1 + n2) + Fraction(1, 2 ** 38) * s * s if not f32 else Fraction(1, 2 ** 16) * (s * s + n2))
         if not ok:
-            return 'reprojerr(%s, reduction=%s) = %s, expected from %s' % (p, red, g, [float(x) for x in e])
+            return 'reprojerr(%s, pixel %s [%s], reduction=%s) = %s, expected from %s' % (p, px, db, red, g, [float(x) for x in e])
     return None
 
 
@@ -802,19 +925,22 @@ def check_perm(pp, torch, c):
     fn, pts, idx = c['of'], c['pts'], c['perm']
     P2 = [pts[i] for i in idx]
     if fn == 'nbr_filter':
-        f = lambda p: rows_of(pp.nbr_filter(tens(torch, p), nbr=c['nbr'], radius=c['radius'], pdim=c['pd'], ord=ORDS[c['ord']]))
+        f = lambda p: rows_of(pp.nbr_filter(tens(torch, p, c=c), nbr=c['nbr'], radius=c['radius'], pdim=c['pd'], ord=ORDS[c['ord']]))
         a, b = f(pts), f(P2)
         return None if sorted_rows(a) == sorted_rows(b) else 'kept points differ as multisets after permuting the cloud'
     if fn == 'voxel_filter':
-        f = lambda p: rows_of(pp.voxel_filter(tens(torch, p), list(c['voxel'])))
+        f = lambda p: rows_of(pp.voxel_filter(tens(torch, p, c=c), list(c['voxel'])))
         a, b = f(pts), f(P2)
-        return None if rows_close(a, b, Fraction(1, 2 ** 50)) else 'voxel centroids change when the cloud is permuted'
+        return None if rows_close(a, b, 2 * eps(c)) else 'voxel centroids change when the cloud is permuted'
     if fn == 'knn_filter':
-        f = lambda p: rows_of(pp.knn_filter(tens(torch, p), k=c['k'], pdim=c['pd'], ord=ORDS[c['ord']]))
+        full = o_knn_filter(pts, c['k'], c['pd'], c['ord'], None)
+        if full is None or full[1]:
+            return None                  # k+1 > N, or a tie at the selection boundary of some row: the choice is unspecified
+        f = lambda p: rows_of(pp.knn_filter(tens(torch, p, c=c), k=c['k'], pdim=c['pd'], ord=ORDS[c['ord']]))
         a, b = f(pts), f(P2)
-        return None if rows_close(b, [a[i] for i in idx], Fraction(1, 2 ** 50)) else 'outputs are not permuted with the cloud'
+        return None if rows_close(b, [a[i] for i in idx], 2 * eps(c)) else 'outputs are not permuted with the cloud'
     if fn == 'knn':
-        f = lambda p: pp.knn(tens(torch, c['ref']), tens(torch, p), k=c['k'], ord=ORDS[c['ord']])
+        f = lambda p: pp.knn(tens(torch, c['ref'], c=c), tens(torch, p, c=c), k=c['k'], ord=ORDS[c['ord']])
         a, b = f(pts), f(P2)
         if not torch.equal(a.values, b.values):
             return 'knn distances change when the neighbour cloud is permuted'
@@ -899,19 +1025,57 @@ def unit_quat(rng):
             return [a / n for a in q]
 
 
-CHECKS = {'cam-batch': check_cam_batch, 'knn': check_knn, 'nbr_filter': check_nbr, 'voxel_filter': check_voxel, 'voxel_filter_random': check_voxel_random,
+CHECKS = {'backproject': lambda pp, torch, c: check_backproject(pp, torch, c), 'cam-batch': check_cam_batch, 'knn': check_knn, 'nbr_filter': check_nbr, 'voxel_filter': check_voxel, 'voxel_filter_random': check_voxel_random,
           'knn_filter': check_knn_filter, 'random_filter': check_random, 'reprojerr-zero': check_reproj, 'perm': check_perm}
+
+
+MUT = 'an argument tensor (or the buffer it is a view of) was modified in place by the call'
+
+
+def judge(pp, torch, c):
+    """the property's statement on the implementation for one case, in the case's call form (dtype / memory layout), plus the
+    non-mutation of every tensor argument; -> description of the failure or None"""
+    fn = c.get('fn')
+    f = CHECKS.get(fn, check_cam)
+    del LIVE[:]
+    try:
+        why = f(pp, torch, c)
+    except Exception as e:      # noqa
+        why = 'check raised %s: %s' % (type(e).__name__, str(e)[:200])
+    if mutated(torch) and why is None:
+        why = MUT
+    return why
 
 
 def replay(ctx, c):
     pp = import_pypose()
     import torch
-    fn = c.get('fn')
-    f = CHECKS.get(fn, check_cam)
-    try:
-        return f(pp, torch, c)
-    except Exception as e:      # noqa
-        return 'check raised %s: %s' % (type(e).__name__, str(e)[:200])
+    return judge(pp, torch, c)
+
+
+def form_of(c):
+    d = c.get('dtypes') or c.get('dtype', 'float64')
+    if isinstance(d, dict):
+        d = '/'.join('%s=%s' % kv for kv in sorted(d.items()))
+    return '%s,%s' % (d, c.get('layout') or 'contiguous')
+
+
+def direct(ctx, pp, torch, c, branch, what=''):
+    """judge one case directly with the exact oracle (no model evaluation) and report a failure with its input"""
+    fn = c.get('of') if c.get('fn') == 'perm' else c.get('fn')
+    ctx.case((branch, repr(sorted(c.items(), key=lambda kv: kv[0]))), nontrivial=True, branch=branch)
+    why = judge(pp, torch, c)
+    if why:
+        if why == MUT:
+            key = 'mutation:%s' % fn
+        elif c.get('fn') == 'knn_filter' and 'dtype' not in c and 'layout' not in c:
+            key = knnf_class(c)
+        elif c.get('fn') == 'perm':
+            key = 'perm-equivariance:' + fn
+        else:
+            key = '%s:%s' % (fn, branch.split(':')[0])
+        ctx.violation(key, '%s%s [%s]: %s' % (fn, what, form_of(c), why), c)
+    return why
 
 
 def perm_check(ctx, pp, torch, c):
@@ -999,6 +1163,260 @@ def random_block(ctx, col, pp, torch):
         add_rnd(col, pp, torch, pts, rng.choice([0, 1, N, N // 2, rng.randint(0, N), N + 1]), rng.randrange(10 ** 6), batch=rng.choice([1, 1, 4]))
 
 
+# ------------------------------------------------------------------------------------ regimes of the cloud size / exact thresholds
+EDGE_SIZES = [63, 64, 65, 127, 128, 129, 130, 191, 193, 255, 256, 257, 258, 260, 288, 299, 300]
+
+
+def gen_lattice(rng, N, pd, nf, small=False):
+    """N DISTINCT points of a dense integer lattice (times a dyadic step) with a few far outliers at random array positions:
+    every point has a handful of neighbours within a few steps, so that small thresholds are attained exactly by many points"""
+    step = rng.choice([1.0, 1.0, 0.5, 2.0])
+    side = max(3, int(round((N * rng.choice([1.2, 2.0, 4.0])) ** (1.0 / pd))) + 1)
+    seen = set()
+    while len(seen) < N:
+        c = tuple(rng.randrange(side) for _ in range(pd))
+        if c in seen:
+            side += 1 if rng.random() < 0.05 else 0
+            continue
+        seen.add(c)
+    coords = list(seen)
+    rng.shuffle(coords)
+    far = 150 if small else 1000
+    for t in range(min(3, N - 1) if rng.random() < 0.7 else 0):
+        coords[rng.randrange(N)] = tuple(far + 50 * t + 7 * q for q in range(pd))
+    return [[v * step for v in c] + [rng.randint(-64, 64) / 4 for _ in range(nf)] for c in coords], step
+
+
+def o_counts(rows, radius, pd, o):
+    P, sc = scaled(rows)
+    return [sum(1 for j, q in enumerate(P) if j != i and within(o, meas(o, p[:pd], q[:pd]), radius, sc)) for i, p in enumerate(P)]
+
+
+def radius_for_count(rng, pts, pd, o, i, k):
+    """a representable radius with (normally) exactly k other points of the cloud within it around point i"""
+    P = frows(pts)
+    d = sorted(meas(o, P[i][:pd], q[:pd]) for j, q in enumerate(P) if j != i)
+    if k <= 0 or k > len(d):
+        return 0.25
+    m = d[k - 1]
+    if o == 'L2':
+        return math.ceil(math.sqrt(float(m)) * 4) / 4
+    return float(m)
+
+
+def large_block(ctx, col, pp, torch):
+    """cloud sizes at and next to powers of two / typical block lengths up to the documented 300 points, parameters at the exact
+    threshold (nbr = the number of neighbours some point really has, radius = the distance of some point's k-th neighbour), every
+    cloud function; judged by the exact oracle, two of the nbr_filter cases per run also by the model"""
+    rng = ctx.rng
+    m = ctx.scale(1, 4)
+    os_ = ['L1', 'L2', 'Linf']
+    big = [n for n in EDGE_SIZES if n > 256]
+    # ---- nbr_filter: dense lattice clouds, threshold = the exact neighbour count of a point of the cloud
+    for it in range(12 * m):
+        N = rng.choice(big) if it % 2 == 0 else rng.choice(EDGE_SIZES)
+        o, pd, nf = os_[it % 3], rng.choice([1, 2, 2, 3, 3, 4, 6]), rng.choice([0, 0, 1, 3])
+        dtype = 'float32' if it % 4 == 3 else 'float64'
+        pts, step = gen_lattice(rng, N, pd, nf, small=(dtype == 'float32'))
+        radius = step * rng.choice([1.0, 1.5, 1.5, 2.0, 2.5, 3.0])
+        cnt = o_counts(pts, radius, pd, o)
+        nbr = cnt[rng.randrange(N)] + rng.choice([0, 0, 0, 1])
+        c = dict(fn='nbr_filter', pts=pts, nbr=nbr, radius=radius, pd=pd, ord=o)
+        if dtype != 'float64':
+            c['dtype'] = dtype
+        ctx.count('size-regime:nbr_filter:%s' % ('N>256' if N > 256 else ('N>128' if N > 128 else 'N<=128')))
+        direct(ctx, pp, torch, c, 'size-regime:nbr_filter', ' on %d points, nbr = exact count of a point' % N)
+        if it < 2:
+            add_nbr(col, pp, torch, pts, nbr, radius, pd, o)
+        if it % 4 == 1:
+            P2, idx = permuted(rng, pts)
+            direct(ctx, pp, torch, dict(fn='perm', of='nbr_filter', pts=pts, perm=idx, nbr=nbr, radius=radius, pd=pd, ord=o), 'size-regime:perm')
+    # ---- knn_filter (radius branch at the exact count, no-radius branch), sparse clouds (no ties at the selection boundary)
+    for it in range(5 * m):
+        N = rng.choice(big) if it % 2 == 0 else rng.choice(EDGE_SIZES)
+        o, pd, nf = os_[it % 3], rng.randint(1, 4), rng.choice([0, 1])
+        pts = gen_cloud(rng, N, pd, nf, o)
+        k = pick_k(rng, pts, pd, o, None, tries=3)
+        radius = None if it % 5 == 4 else radius_for_count(rng, pts, pd, o, rng.randrange(N), max(k, 1) if it % 2 == 0 else k + 1)
+        c = dict(fn='knn_filter', pts=pts, k=k, pd=pd, ord=o, radius=radius)
+        direct(ctx, pp, torch, c, 'size-regime:knn_filter', ' on %d points' % N)
+    # ---- knn: many neighbours, few reference points; k small, k = N and k next to block lengths
+    for it in range(5 * m):
+        N2 = rng.choice(big) if it % 2 == 0 else rng.choice(EDGE_SIZES)
+        o, D = os_[it % 3], rng.randint(1, 5)
+        nbr = gen_cloud(rng, N2, D, 0, o)
+        ref = gen_cloud(rng, rng.choice([1, 3, 7]), D, 0, o) if it % 2 else [list(q) for q in rng.sample(nbr, 3)]
+        k = rng.choice([1, 2, 5, N2, N2 - 1, 129, 64])
+        direct(ctx, pp, torch, dict(fn='knn', ref=ref, nbr=nbr, k=min(k, N2), ord=o), 'size-regime:knn', ' on %d neighbours' % N2)
+    # ---- voxel_filter (centroid / random member) and random_filter
+    for it in range(4 * m):
+        N = rng.choice(big) if it % 2 == 0 else rng.choice(EDGE_SIZES)
+        vd, nf = rng.randint(1, 4), rng.choice([0, 1, 3])
+        pts = gen_cloud(rng, N, vd, nf, 'L2', spread=rng.choice([4, 16, 64, 512]))
+        voxel = [rng.choice([1.0, 2.0, 5.0, 0.5, 1.5, 3.0, 7.0, 10.0, 64.0, 1000.0, -2.0]) for _ in range(vd)]
+        direct(ctx, pp, torch, dict(fn='voxel_filter', pts=pts, voxel=voxel), 'size-regime:voxel_filter', ' on %d points' % N)
+        if it % 2 == 0:
+            direct(ctx, pp, torch, dict(fn='voxel_filter_random', pts=pts, voxel=voxel, seed=rng.randrange(10 ** 6)), 'size-regime:voxel_filter_random', ' on %d points' % N)
+        else:
+            P2, idx = permuted(rng, pts)
+            direct(ctx, pp, torch, dict(fn='perm', of='voxel_filter', pts=pts, perm=idx, voxel=voxel), 'size-regime:perm')
+        direct(ctx, pp, torch, dict(fn='random_filter', pts=pts, num=rng.choice([N, N - 1, 257, 129, N // 2, 1]) if N > 257 else rng.randint(0, N),
+                                    seed=rng.randrange(10 ** 6)), 'size-regime:random_filter', ' on %d points' % N)
+
+
+# ------------------------------------------------------------------------------------ call forms: dtypes and memory layouts
+def gen_small(rng, N, pd, nf, integer=False):
+    """integer coordinates |c| <= 200 (every distance computation is exact in single precision too), features on a quarter grid"""
+    centres = [[rng.randint(-150, 150) for _ in range(pd)] for _ in range(rng.randint(1, 3))]
+    spread = rng.choice([4, 16, 50])
+    rows = []
+    for _ in range(N):
+        if rng.random() < 0.15:
+            c = [rng.randint(-200, 200) for _ in range(pd)]
+        else:
+            ce = rng.choice(centres)
+            c = [max(-200, min(200, x + rng.randint(-spread, spread))) for x in ce]
+        f = [rng.randint(-64, 64) * (1.0 if integer else 0.25) for _ in range(nf)]
+        rows.append([float(v) for v in c] + f)
+    return rows
+
+
+def call_forms(ctx, pp, torch, n):
+    """every cloud function in single precision, on non-contiguous views (column-major, strided slices of a larger buffer, storage
+    offset) and - where integer clouds are accepted (random sampling) - on integer tensors; exact oracle + non-mutation"""
+    rng = ctx.rng
+    fns = ['nbr_filter', 'knn_filter', 'knn', 'voxel_filter', 'voxel_filter_random', 'random_filter', 'perm-nbr', 'perm-knnf', 'perm-vox']
+    os_ = ['L1', 'L2', 'Linf']
+    for it in range(n):
+        fn = fns[it % len(fns)]
+        dtype = rng.choice(['float32', 'float32', 'float64'])
+        layout = rng.choice(LAYOUTS)
+        if dtype == 'float64' and layout is None:
+            layout = rng.choice(LAYOUTS[1:])
+        integer = fn in ('voxel_filter_random', 'random_filter') and rng.random() < 0.4
+        if integer:
+            dtype = rng.choice(['int64', 'int32', 'int16'])
+        o, pd, nf = rng.choice(os_), rng.randint(1, 5), rng.choice([0, 1, 2])
+        N = rng.choice([1, 2, 3, 5, 8, 13, 24, 48])
+        pts = gen_small(rng, N, pd, nf, integer)
+        form = dict(dtype=dtype, layout=layout)
+        if fn in ('nbr_filter', 'perm-nbr'):
+            radius = pick_radius(rng, pts, pd, o)
+            cnt = o_counts(pts, radius, pd, o) if radius >= 0 else [0]
+            c = dict(fn='nbr_filter', pts=pts, nbr=rng.choice([cnt[rng.randrange(len(cnt))], 1, 2, 0]), radius=radius, pd=pd, ord=o)
+        elif fn in ('knn_filter', 'perm-knnf'):
+            k = pick_k(rng, pts, pd, o, None)
+            radius = None if (fn == 'perm-knnf' or rng.random() < 0.4) else radius_for_count(rng, pts, pd, o, rng.randrange(N), max(k, 1))
+            c = dict(fn='knn_filter', pts=pts, k=k, pd=pd, ord=o, radius=radius)
+        elif fn == 'knn':
+            D = pd + nf
+            ref = gen_small(rng, rng.choice([1, 2, 5]), D, 0)
+            c = dict(fn='knn', ref=ref, nbr=pts, k=rng.choice([0, 1, 2, N, N // 2]), ord=o)
+        elif fn in ('voxel_filter', 'voxel_filter_random', 'perm-vox'):
+            voxel = [rng.choice([1.0, 2.0, 5.0, 0.5, 1.5, 3.0, 7.0, 10.0, 64.0, 1000.0, -2.0]) for _ in range(rng.randint(1, pd))]
+            c = dict(fn='voxel_filter' if fn != 'voxel_filter_random' else fn, pts=pts, voxel=voxel, seed=rng.randrange(10 ** 6))
+        else:
+            c = dict(fn='random_filter', pts=pts, num=rng.choice([0, 1, N, N // 2, N + 1]), seed=rng.randrange(10 ** 6))
+        c.update(form)
+        if fn.startswith('perm-'):
+            P2, idx = permuted(rng, pts)
+            c = dict(c, of=c['fn'], fn='perm', perm=idx)
+        direct(ctx, pp, torch, c, 'call-form:%s:%s' % (fn, 'integer' if integer else dtype))
+
+
+PIX_DT = ['int64', 'int32', 'int16', 'uint8', 'float32', 'float64']
+DEP_DT = ['int64', 'int32', 'int16', 'float32', 'float64']
+
+
+def camera_forms(ctx, pp, torch, n):
+    """camera helpers with the argument dtypes that occur in practice: integer pixel grids (meshgrid of arange), integer depth
+    images, single / double precision cameras and depths in every combination the implementation accepts; pixels / depth on
+    non-contiguous views.  Values against the pinhole model in exact arithmetic, plus the round trip and non-mutation."""
+    rng = ctx.rng
+    for it in range(n):
+        K, T = gen_camera(rng)
+        if rng.random() < 0.75:          # pinhole intrinsics for the inverse pair
+            f = lambda: rng.choice([1, 2, 4, 0.5, 3, 1.5, -2, 40, 100.25, 525.0])
+            K = [[f(), 0.0, dy(rng, -8, 40)], [0.0, f(), dy(rng, -8, 40)], [0.0, 0.0, 1.0]]
+        dK = rng.choice(['float32', 'float64'])
+        layout = rng.choice(LAYOUTS)
+        N = rng.choice([1, 2, 4, 6, 12])
+        op = ['pixel2point', 'pixel2point', 'reprojerr-none', 'reprojerr-sum', 'reprojerr-norm', 'point2pixel', 'cart2homo', 'homo2cart', 'pixel2point'][it % 9]
+        if op == 'pixel2point':
+            da, db = rng.choice(PIX_DT), rng.choice(DEP_DT)
+            if it % 3 == 0:
+                da = rng.choice(PIX_DT[:4])                   # the integer pixel grid is the ordinary case
+            pix = [[float(rng.randint(0, 200)), float(rng.randint(0, 200))] if da.find('int') >= 0 else [dy(rng, -8, 40), dy(rng, -8, 40)] for _ in range(N)]
+            dep = [[float(rng.randint(1, 60))] if db.find('int') >= 0 else [rng.choice([1, 2, 0.5, 3, 5.5, -2, 0.75, 7.25])] for _ in range(N)]
+            c = dict(fn=op, K=K, T=None, pts=pix, b=dep, dtypes=dict(a=da, b=db, K=dK), layout=layout)
+            direct(ctx, pp, torch, c, 'call-form:pixel2point:%s' % ('int-pixels' if da.find('int') >= 0 else ('int-depth' if db.find('int') >= 0 else 'float')))
+            continue
+        pts = [[dy(rng, -8, 8), dy(rng, -8, 8), rng.choice([1, 2, 4, 0.5, 3, 5, -2, 1.5, 7.25])] for _ in range(N)]
+        if op == 'cart2homo':
+            da = rng.choice(['float32', 'float64', 'int64', 'int32'])
+            a = [[float(rng.randint(-50, 50)) if da.find('int') >= 0 else dy(rng, -8, 8) for _ in range(rng.randint(1, 5))]]
+            c = dict(fn=op, K=None, T=None, pts=a, b=None, dtypes=dict(a=da), layout=layout)
+        elif op == 'homo2cart':
+            d = rng.randint(2, 5)
+            a = [[dy(rng, -8, 8) for _ in range(d - 1)] + [rng.choice([1, -1, 2, 3, -5, 0.75, 7])] for _ in range(N)]
+            c = dict(fn=op, K=None, T=None, pts=a, b=None, dtypes=dict(a=dK), layout=layout)
+        elif op == 'point2pixel':
+            c = dict(fn=op, K=K, T=T, pts=pts, b=None, dtypes=dict(a=dK, K=dK), layout=layout)
+        else:
+            db = rng.choice(PIX_DT)
+            pr = [o_project(K, T, q, TINY[dK]) for q in pts]
+            if any(abs(v) > 10 ** 6 for q in pr for v in q):
+                continue
+            if db.find('int') >= 0:
+                pix = [[float(round(q[0]) + rng.randint(-3, 3)), float(round(q[1]) + rng.randint(-3, 3))] for q in pr]
+                if any(not 0 <= v <= 255 for q in pix for v in q) and db == 'uint8':
+                    db = 'int32'
+                if any(abs(v) > 30000 for q in pix for v in q) and db == 'int16':
+                    db = 'int64'
+            else:
+                pix = [[float(math.floor(q[0] * 8) / 8) + dy(rng, -4, 4), float(math.floor(q[1] * 8) / 8) + dy(rng, -4, 4)] for q in pr]
+            c = dict(fn=op, K=K, T=T, pts=pts, b=pix, dtypes=dict(a=dK, b=db, K=dK), layout=layout)
+        direct(ctx, pp, torch, c, 'call-form:%s:%s' % (op, c['dtypes'].get('b', c['dtypes'].get('a'))))
+    # ---- the back-projection scenario as a whole: integer grid -> points -> pixels returns the grid, reprojerr of it is 0
+    for it in range(max(2, n // 10)):
+        W, H = rng.randint(2, 6), rng.randint(2, 5)
+        c = dict(fn='backproject', W=W, H=H, K=[[rng.choice([2.0, 3.5, 525.0, -2.25]), 0.0, dy(rng, 0, 8)], [0.0, rng.choice([2.0, 410.5, -2.25, 4.0]), dy(rng, 0, 8)], [0.0, 0.0, 1.0]],
+                 depth=[rng.randint(1, 32) / 4 for _ in range(W * H)], dtypes=dict(a=rng.choice(PIX_DT[:3]), b=rng.choice(['float32', 'float64'])))
+        direct(ctx, pp, torch, c, 'call-form:backproject')
+
+
+def check_backproject(pp, torch, c):
+    """pixel2point on the integer pixel grid of a W x H image, then point2pixel / reprojerr on the result: mutually inverse"""
+    W, H = c['W'], c['H']
+    fd = c['dtypes']['b']
+    grid = [[u, v] for v in range(H) for u in range(W)]
+    px = mk(torch, grid, c['dtypes']['a'])
+    K = mk(torch, c['K'], fd)
+    z = mk(torch, c['depth'], fd)
+    tol = float(64 * EPS[fd])
+    pts, err = call(lambda: pp.pixel2point(px, z, K))
+    if err:
+        return 'pixel2point raises ' + err
+    if not pts.dtype.is_floating_point:
+        return 'pixel2point returns dtype %s for a %s pixel grid and %s depth' % (pts.dtype, px.dtype, z.dtype)
+    for g, (u, v), d in zip(pts.tolist(), grid, c['depth']):
+        want = [(u - F(c['K'][0][2])) * F(d) / F(c['K'][0][0]), (v - F(c['K'][1][2])) * F(d) / F(c['K'][1][1]), F(d)]
+        if not all(abs(F(x) - y) <= F(tol) * (abs(y) + 1) for x, y in zip(g, want)):
+            return 'pixel2point(pixel %s, depth %s) = %s, the pinhole model gives %s' % ([u, v], d, g, [float(x) for x in want])
+    back, err = call(lambda: pp.point2pixel(pts.to(K.dtype), K))
+    if err:
+        return 'point2pixel raises ' + err
+    e = float((back.double() - px.double()).abs().max())
+    if not e <= tol * 1e3 * 300:
+        return 'point2pixel(pixel2point(grid, depth)) differs from the grid by %.3g px' % e
+    r, err = call(lambda: pp.reprojerr(pts.to(K.dtype), px, K, reduction='norm'))
+    if err:
+        return 'reprojerr raises ' + err
+    if not float(r.abs().max()) <= tol * 1e3 * 300:
+        return 'reprojerr of the back-projected grid is %.3g px' % float(r.abs().max())
+    return None
+
+
 def run(ctx):
     pp = import_pypose()
     import torch
@@ -1008,6 +1426,9 @@ def run(ctx):
     random_block(ctx, col, pp, torch)
     camera_cases(ctx, col, pp, torch, ctx.scale(70, 600))
     camera_batches(ctx, pp, torch, ctx.scale(24, 200))
+    large_block(ctx, col, pp, torch)
+    call_forms(ctx, pp, torch, ctx.scale(72, 500))
+    camera_forms(ctx, pp, torch, ctx.scale(72, 500))
     files = col.files(ctx.scale(16, 48))
     res = run_case_files('C18', files, timeout=1500)
     bad = set()
